@@ -875,6 +875,16 @@ macro_rules! rwr {
         if rv != Ok((v[0], v[1], v[2])) {
             $t.bad($name, "read-after-write-in-the-same-function-returns-a-stale-value", &format!("{} read;write({:#x});read;write({:#x});read from {:#x}", $name, v[1], v[2], v[0]), format!("{:x?}", rv));
         }
+        // write(A); the register changes by another route (another wrapper, another CPU, the hardware); write(A) again:
+        // the second write is performed — a wrapper keeps no memory of what it wrote last
+        let _ = stepped(|| $wr(v[1]));
+        $set(v[2]);
+        let (_, ev) = stepped(|| $wr(v[1]));
+        let (rv, _) = stepped(|| $rd());
+        $t.r.ev(true);
+        if ev.is_empty() || rv != Ok(v[1]) {
+            $t.bad($name, "identical-write-repeated-after-the-register-changed-elsewhere-is-not-performed", &format!("{} write({:#x}); register := {:#x} elsewhere; write({:#x})", $name, v[1], v[2], v[1]), format!("events {:x?}, register reads {:x?}", ev, rv));
+        }
     }};
 }
 
